@@ -57,37 +57,46 @@ def check_ders(case, ctx):
     obj = build.make(d, **kw)
     if case["alt"]:
         obj.evaluator = evaluators.CurveEvaluator2() if d["kind"] == "curve" else evaluators.SurfaceEvaluator2()
-    R = build.exact_from(d, obj)
     kinds_all = []
-    for descs in case["params"]:
-        us, kinds = build.resolve_params(obj, descs)
-        kinds_all += kinds
-        D, M = R.derivatives(us, order)
-        if d["kind"] == "curve":
-            CK = obj.derivatives(us[0], order)
-            ctx.check(len(CK) == order + 1, "ders-shape", "derivatives(order=%d) returned %d entries" % (order, len(CK)))
-            for k in range(order + 1):
-                ctx.check(ref.vec_close(CK[k], D[(k,)], M[(k,)], 1e-8), "curve-derivative",
-                          "CK[%d] at u=%r is %r, exact %r (degree %d, order %d, %s)" % (
-                              k, us[0], CK[k], ref.fl(D[(k,)]), d["degree"][0], order,
-                              "alt evaluator" if case["alt"] else "default evaluator"))
-                if not d["rational"] and k > d["degree"][0]:
-                    ctx.check(all(c == 0.0 for c in CK[k]), "curve-derivative-above-degree",
-                              "CK[%d] of a degree-%d non-rational curve is %r, must be zero" % (k, d["degree"][0], CK[k]))
-        else:
-            SKL = obj.derivatives(us[0], us[1], order)
-            ctx.check(len(SKL) >= order + 1 and all(len(r) >= order + 1 - i for i, r in enumerate(SKL[:order + 1])),
-                      "ders-shape", "surface derivatives(order=%d) returned shape %r" % (order, [len(r) for r in SKL]))
-            for k in range(order + 1):
-                for l in range(order + 1 - k):
-                    ctx.check(ref.vec_close(SKL[k][l], D[(k, l)], M[(k, l)], 1e-8), "surface-derivative",
-                              "SKL[%d][%d] at %r is %r, exact %r (degrees %r, order %d, %s)" % (
-                                  k, l, us, SKL[k][l], ref.fl(D[(k, l)]), d["degree"], order,
+    for rnd in (0, 1):
+        if rnd == 1:
+            # the same object (same evaluator object) after its control points were replaced: the answers follow the new net
+            if len(d["P"]) % 2:
+                break
+            d = dict(d)
+            d["P"] = [[c * 1.5 - 2.0 * (i + 1) for i, c in enumerate(q)] for q in d["P"]]
+            obj.ctrlpts = [list(q) for q in d["P"]]
+            ctx.label("queried-again-after-new-control-points")
+        R = build.exact_from(d, obj)
+        for descs in case["params"]:
+            us, kinds = build.resolve_params(obj, descs)
+            kinds_all += kinds
+            D, M = R.derivatives(us, order)
+            if d["kind"] == "curve":
+                CK = obj.derivatives(us[0], order)
+                ctx.check(len(CK) == order + 1, "ders-shape", "derivatives(order=%d) returned %d entries" % (order, len(CK)))
+                for k in range(order + 1):
+                    ctx.check(ref.vec_close(CK[k], D[(k,)], M[(k,)], 1e-8), "curve-derivative",
+                              "CK[%d] at u=%r is %r, exact %r (degree %d, order %d, %s)" % (
+                                  k, us[0], CK[k], ref.fl(D[(k,)]), d["degree"][0], order,
                                   "alt evaluator" if case["alt"] else "default evaluator"))
-                    if not d["rational"] and (k > d["degree"][0] or l > d["degree"][1]):
-                        ctx.check(all(c == 0.0 for c in SKL[k][l]), "surface-derivative-above-degree",
-                                  "SKL[%d][%d] of a degree-%r non-rational surface is %r, must be zero" % (k, l, d["degree"], SKL[k][l]))
-            ctx.nt(order >= 2 and min(d["degree"]) >= 1, "mixed-partials")
+                    if not d["rational"] and k > d["degree"][0]:
+                        ctx.check(all(c == 0.0 for c in CK[k]), "curve-derivative-above-degree",
+                                  "CK[%d] of a degree-%d non-rational curve is %r, must be zero" % (k, d["degree"][0], CK[k]))
+            else:
+                SKL = obj.derivatives(us[0], us[1], order)
+                ctx.check(len(SKL) >= order + 1 and all(len(r) >= order + 1 - i for i, r in enumerate(SKL[:order + 1])),
+                          "ders-shape", "surface derivatives(order=%d) returned shape %r" % (order, [len(r) for r in SKL]))
+                for k in range(order + 1):
+                    for l in range(order + 1 - k):
+                        ctx.check(ref.vec_close(SKL[k][l], D[(k, l)], M[(k, l)], 1e-8), "surface-derivative",
+                                  "SKL[%d][%d] at %r is %r, exact %r (degrees %r, order %d, %s)" % (
+                                      k, l, us, SKL[k][l], ref.fl(D[(k, l)]), d["degree"], order,
+                                      "alt evaluator" if case["alt"] else "default evaluator"))
+                        if not d["rational"] and (k > d["degree"][0] or l > d["degree"][1]):
+                            ctx.check(all(c == 0.0 for c in SKL[k][l]), "surface-derivative-above-degree",
+                                      "SKL[%d][%d] of a degree-%r non-rational surface is %r, must be zero" % (k, l, d["degree"], SKL[k][l]))
+                ctx.nt(order >= 2 and min(d["degree"]) >= 1, "mixed-partials")
     _nontrivial(ctx, d, kinds_all, order, case["alt"])
 
 
